@@ -115,18 +115,20 @@ JudgeRepairX(e) ==
      ELSE IF \E k \in DOMAIN fresh : ~named(fresh[k]) THEN "added-atom-is-not-a-block-atom"
      ELSE IF \E k \in DOMAIN fresh : fresh[k].ptm # ref.ptm[IdxOf(ref.names, fresh[k].name)] THEN "added-atom-wrongly-marked"
      ELSE IF Requested(e) /\ \E k \in DOMAIN keptOrig : keptOrig[k].ptm # ref.ptm[IdxOf(ref.names, keptOrig[k].name)] THEN "atom-of-the-requested-residue-wrongly-marked"
-     ELSE IF Requested(e) /\ \E i \in DOMAIN e.out : e.out[i].resname # ref.name THEN "residue-not-renamed-to-the-requested-block"
      ELSE LET v == JudgeRepair(e2) IN
           IF v # "ok" THEN v
           ELSE IF \E a, b \in orig \cap outIds : a # b /\ FinalAdj(e, a, b) # Adj(e.R, a, b) /\ (\E k \in DOMAIN keptOrig : keptOrig[k].id \in {a, b} /\ keptOrig[k].ptm)
                THEN "bond-of-an-unrecognised-atom-changed"
+          ELSE IF Requested(e) /\ \E i \in DOMAIN e.out : e.out[i].resname # ref.name THEN "residue-not-renamed-to-the-requested-block"
           ELSE "ok"
 \* what the verdict rests on: was the certificate accepted, how many atoms recognised / re-added / marked / removed
 NoteRepairX(e) ==
   IF (e.muts # <<>> /\ ~AllEqual(e.muts)) \/ ~LibHas(e.blocks, TargetName(e)) \/ (\E i \in DOMAIN e.mods : e.mods[i] # "none" /\ ~LibHas(e.modlib, e.mods[i]))
   THEN "-"
   ELSE IF ~AllFit(PlainBlock(LibGet(e.blocks, TargetName(e))), WantedMods(e)) THEN "-"
-  ELSE LET ref == RefOf(e) IN IF CertOK(ref, AsGraph(ref), e.R, e.cert) THEN "cert" ELSE "nocert"
+  ELSE LET ref == RefOf(e)
+           c == SelectSeq(e.cert, LAMBDA p : HasName(ref.names, p[2]))
+       IN IF c = <<>> THEN "nocert-empty" ELSE IF CertOK(ref, AsGraph(ref), e.R, c) THEN "cert" ELSE "nocert"
 
 (* the molecule around the residues: bonds between input atoms that survive are untouched, a new atom is bonded only inside its residue
    e.atoms : Seq([id, res, orig : BOOLEAN, present : BOOLEAN]); e.inEdges / e.outEdges : Seq(<<a, b>>) with a < b *)
